@@ -88,8 +88,7 @@ Qed.
 
 Lemma apply_mss_tailf s r : tailf (tcp_apply_mss s r) s.
 Proof.
-  unfold tcp_apply_mss. destruct (r_max_seg_size r) as [m|]; [|apply tailf_refl].
-  destruct (m =? 0); [apply tailf_refl | tf].
+  unfold tcp_apply_mss. destruct (r_max_seg_size r) as [m|]; [destruct (m =? 0)|]; tf.
 Qed.
 
 Definition phase_sock (p : phase socket) : socket :=
